@@ -30,7 +30,9 @@ EXTENDS Integers, Sequences, FiniteSets, TLC, SequencesExt
 \* HostCycles: what the encoder does when a host object is reached again while its own
 \* arguments are still being pickled (a function that refers to itself through its globals):
 \* "diverge" models the encoder as found (unbounded recursion), "standin" the repaired
-\* pickler, which emits a stand-in for the object under construction.
+\* pickler, which emits a stand-in for the object under construction; "none" is a pickler
+\* without such bookkeeping on values whose host objects are not cyclic through immutable
+\* values only (the generic codec scopes).
 CONSTANTS Repush, HostCycles
 
 Atom(t, v) == [t |-> t, v |-> v]
@@ -101,7 +103,7 @@ EncItem(h, x, st, batch) ==
     IF st.div THEN st
     ELSE IF ~IsRef(x) THEN [st EXCEPT !.ops = Append(@, OpOfAtom(x))]
     ELSE IF x.id \in DOMAIN st.memo THEN [st EXCEPT !.ops = Append(@, [op |-> "BINGET", i |-> st.memo[x.id]])]
-    ELSE IF h.nodes[x.id].t = "host" /\ x.id \in st.active
+    ELSE IF HostCycles # "none" /\ h.nodes[x.id].t = "host" /\ x.id \in st.active
          THEN IF HostCycles = "standin"
               THEN [st EXCEPT !.ops = @ \o << [op |-> "STR", v |-> "dawn"], [op |-> "STR", v |-> "Recursive"], [op |-> "STACK_GLOBAL"],
                                                [op |-> "STR", v |-> h.nodes[x.id].name], [op |-> "TUPLE1"], [op |-> "NEWOBJ"] >>]
